@@ -1227,6 +1227,10 @@ func (t *Topic) handleNoteBroadcast(msg *ClientComMessage) {
 
 	if asChan {
 		// No need to forward {note} to other subscribers in channels
+		if seq > 0 && pud.isChan {
+			// The reader is cached while attached: the cached marks are what the next note is checked against.
+			t.perUser[asUid] = pud
+		}
 		return
 	}
 
@@ -1559,6 +1563,10 @@ func (t *Topic) thisUserSub(sess *Session, pkt *ClientComMessage, asUid types.Ui
 			if sub != nil {
 				// Subscription exists, read old access mode.
 				oldWant = sub.ModeWant
+				// The marks the reader has reached: stale notes are checked against them.
+				userData.readID = sub.ReadSeqId
+				userData.recvID = sub.RecvSeqId
+				userData.delID = sub.DelId
 			} else {
 				// Subscription not found, use default.
 				oldWant = types.ModeCChnReader
